@@ -340,6 +340,35 @@ func init() {
 			}
 			return defBool("node_tick_advances_all_tables", ok)
 		}},
+		// proposalShard.propose registers the request in the shard's pending table BEFORE it hands
+		// the entry to the proposal queue, and removes it again when the queue refuses the entry:
+		// "referenced before enqueued" (ProposeA then ProposeB in the model)
+		Fact{Name: "propose_registers_before_enqueue", Gen: func() string {
+			fd := root().Func("proposalShard", "propose")
+			reg, add, del := -1, -1, 0
+			for i, st := range fd.Body.List {
+				ast.Inspect(st, func(n ast.Node) bool {
+					switch x := n.(type) {
+					case *ast.AssignStmt:
+						for _, l := range x.Lhs {
+							if ix, ok := l.(*ast.IndexExpr); ok && strings.HasSuffix(selString(ix.X), ".pending") && reg < 0 {
+								reg = i
+							}
+						}
+					case *ast.CallExpr:
+						if strings.HasSuffix(selString(x.Fun), ".proposals.add") && add < 0 {
+							add = i
+						}
+						if id, ok := x.Fun.(*ast.Ident); ok && id.Name == "delete" && len(x.Args) == 2 &&
+							strings.HasSuffix(selString(x.Args[0]), ".pending") && add >= 0 && i > add {
+							del++
+						}
+					}
+					return true
+				})
+			}
+			return defBool("propose_registers_before_enqueue", reg >= 0 && add >= 0 && reg < add && del >= 2)
+		}},
 		// pendingRaftLogQuery.add refuses requests after close
 		Fact{Name: "logquery_add_refuses_when_stopped", Gen: func() string {
 			return defBool("logquery_add_refuses_when_stopped",
